@@ -78,7 +78,13 @@ func c17(tier string) {
 			return s, "bytes"
 		}
 	}
+	rangeSpellings := []string{"[(007,0)-(18,8)]", "[(0,00)-(000,0)]", "[(1,0)-(5,10)] trailing 9", "[]", "", "(1,2,3,4)", "1 2 3 4 5 6", "[(99999999999999999999999999999,0)-(1,1)]",
+		"[(1.5,2)-(3,4)]", "[(-1,-2)-(-3,-4)]", "[(１,２)-(３,４)]", "[(1,2)-(3,)]", "[(1e3,2)-(3,4)]", "[(0x10,2)-(3,4)]", "[(+1,2)-(3,4)]", "\n[(1,\n2)-(3,4)]"}
 	hostileData := func(r *rand.Rand) (string, string) {
+		if r.Intn(12) == 0 {
+			// valid JSON-LD with source maps whose recorded range is spelled unusually, on nodes that get results
+			return strings.Replace(lib.SourceMapDoc(), "[(1,0)-(5,10)]", rangeSpellings[r.Intn(len(rangeSpellings))], 1), "sourcemap-range-spelling"
+		}
 		switch x := r.Intn(10); {
 		case x < 4:
 			if s, ok := lib.MutateJSONTree(r, goodData[r.Intn(len(goodData))], 1+r.Intn(3)); ok && len(s) < 64*1024 {
